@@ -56,6 +56,8 @@ func C12() api.Check {
 			var c *gen.Case
 			if idx%3 == 0 {
 				c = gen.ISASweep(seed)
+			} else if idx%6 == 1 {
+				c = gen.DataWalk(seed)
 			} else {
 				c = gen.General(seed)
 			}
@@ -78,8 +80,20 @@ func secondState(c *core.Case, ref *isa.Result) (*isa.State, *isa.Result, bool) 
 	// new data values: arbitrary, or (half of the runs) values that look like
 	// addresses of this memory, the kind a value-as-address slip would react to
 	addrLike := r.Bool()
+	var touched []int32
+	if addrLike {
+		for _, st := range ref.Trace {
+			if op := c.Prog.Insts[st.Idx].Op; op.IsLoad() || op.IsStore() {
+				touched = append(touched, st.Addr)
+			}
+		}
+	}
 	val := func(s *isa.State) int32 {
 		if addrLike {
+			if len(touched) > 0 && r.Chance(3, 4) {
+				// inside a line the program itself accesses
+				return touched[r.Intn(len(touched))]&^63 + int32(r.Intn(64))
+			}
 			return int32(4 * r.Intn(len(s.Mem)/4+1))
 		}
 		return r.I32()
